@@ -55,6 +55,8 @@ def sbox_bits(bits):
     """S-box on 8 literals (LSB first) -> 8 literals"""
     A = T.AIG
     g = A.G
+    if g.affine:
+        return g.lut_bits(list(bits), SBOX, 8)
     key = (id(g), tuple(bits))
     r = _shannon_cache.get(key)
     if r is not None:
